@@ -135,6 +135,30 @@ class FieldArrayModel(FieldCompositeModel):
         super().set_used_rand(is_rand, level, in_set)
         self.size.set_used_rand(is_rand, level+1, in_set)
         
+    def size_is_solved(self):
+        """The number of elements is an unknown of the current call"""
+        return self.is_rand_sz and self.is_used_rand
+    
+    def in_list_expr(self, i):
+        """Condition under which element 'i' is part of the solved list"""
+        return ExprBinModel(
+            ExprLiteralModel(i, False, 32),
+            BinExprType.Lt,
+            ExprFieldRefModel(self.size))
+        
+    def _elem_or(self, i, dflt):
+        # While the size is being solved the list holds as many elements
+        # as it can end up with: an element beyond the solved size 
+        # contributes the neutral value
+        ret = ExprFieldRefModel(self.field_l[i])
+        if self.size_is_solved():
+            from vsc.model.expr_cond_model import ExprCondModel
+            ret = ExprCondModel(
+                self.in_list_expr(i),
+                ret,
+                ExprLiteralModel(dflt, self.is_signed, self.type_t.width))
+        return ret
+
     def get_sum_expr(self):
         if self.sum_expr is None:
             # Build
@@ -153,11 +177,10 @@ class FieldArrayModel(FieldCompositeModel):
             # match user expectation
             ret = ExprLiteralModel(0, self.is_signed, result_bits)
             for i in range(int(self.size.get_val())):
-                f = self.field_l[i]
                 ret = ExprBinModel(
                     ret,
                     BinExprType.Add,
-                    ExprFieldRefModel(f))
+                    self._elem_or(i, 0))
                 
             self.sum_expr = ret
             
@@ -189,11 +212,19 @@ class FieldArrayModel(FieldCompositeModel):
             else:
                 ret = ExprLiteralModel(1, self.is_signed, 64)
             for i in range(int(self.size.get_val())):
-                f = self.field_l[i]
                 ret = ExprBinModel(
                     ret,
                     BinExprType.Mul,
-                    ExprFieldRefModel(f))
+                    self._elem_or(i, 1))
+                
+            if self.size_is_solved() and int(self.size.get_val()) > 0:
+                # The product of a list that is solved to be empty is 0,
+                # like that of a list that is empty beforehand
+                from vsc.model.expr_cond_model import ExprCondModel
+                ret = ExprCondModel(
+                    self.in_list_expr(0),
+                    ret,
+                    ExprLiteralModel(0, self.is_signed, 64))
                 
             self.product_expr = ret
             
